@@ -28,7 +28,7 @@ import mapgen
 import terms
 
 PID = "C06"
-PROPS = ["PfModel.Props.C06", "PfModel.Props.C06Sub", "PfModel.Props.C06Flow", "PfModel.Props.C06Par"]
+PROPS = ["PfModel.Props.C06", "PfModel.Props.C06Sub", "PfModel.Props.C06Flow", "PfModel.Props.C06Par", "PfModel.Props.C06Internal", "PfModel.Props.C06FlowWF"]
 DRIVER = "C06"
 RULE = ("mapgen pipelines (1-4 functions; zip, outer product, ':' reductions, internal axes, generators, tuple outputs; axis sizes 1-3, "
         "sometimes 4); for every axis name of the pipeline: every set partition of range(size) into arithmetic progressions (all of them "
@@ -36,24 +36,29 @@ RULE = ("mapgen pipelines (1-4 functions; zip, outer product, ':' reductions, in
         "same index set, sometimes an extra empty slice; every order of the parts when <= 4 parts (thorough; quick samples 4-part orders); "
         "one map(fixed_indices=part, cleanup=False) per part on one folder, then a full run; axes the validation refuses (reduced) and "
         "malformed requests (unknown axis, out-of-range integer, zero step, late out-of-range on an intermediate-only axis) form the reject "
-        "stream; learners with and without split_independent_axes and with fixed_indices, executed in a random generation-respecting "
+        "stream; round 3: for every axis that no MapSpec maps over (internal only: `x[i] -> y[i, k]` with nothing mapping over k, unconsumed "
+        "generators) an in-range integer, an out-of-range integer, a slice, and one of them next to a valid entry for a mapped axis "
+        "(internal-axis stream: all must be refused with ValueError before anything runs; DF-C06-internal-axis), while axes internal in "
+        "one output and mapped over by another function keep their partitions; learners with and without split_independent_axes and with fixed_indices, executed in a random generation-respecting "
         "interleaving and through simple_run; non-trivial = >= 2 non-empty parts (or >= 2 learner steps) over a function mapped over >= 2 "
         "elements; distinct by (pipeline, inputs, storage, request sequence). Round 2: the same with output_names= (names that drop part of "
         "the pipeline, exactly the narrowed pipeline's root inputs) and/or auto_subpipeline=True, for every axis NAME of the whole pipeline "
         "(sub-pieces / sub-malformed; the model validates against the narrowed pipeline); a sample of the sequences re-run with "
         "parallel=True + ThreadPoolExecutor (bare / dict / per output), storage dicts mixing file_array and dict, persist_memory=False; "
         "Result.output of every part checked as a clause; learners with return_output=True, repeated points, adaptive.runner.simple per "
-        "learner, LearnersDict.flatten; flowWF (the static hypotheses of C06_pieces_flow) evaluated by the driver for every fixed_indices "
-        "dictionary of every sequence")
+        "learner, LearnersDict.flatten; flowWF (the static hypotheses of C06_pieces_flow) and C01's Conforms (under which flowWF is a "
+        "theorem) evaluated by the driver for every fixed_indices dictionary of every sequence")
 ASSUMPTIONS = ["NumPy basic indexing (`zeros(shape)[key] = True`, `array[key]`) and Python `slice.indices` are specified by `selIndices` "
                "(compared with Python's own `range(n)[sel]` for every selector the generator can draw)",
                "storage arrays are modelled as partial maps from the external linear index (C07 is the property about the backends)",
                "the run folder's `run_info.json` comparison of `cleanup=False` is not modelled: the parts use the same pipeline and inputs",
                "adaptive's SequenceLearner is driven through `learner.function((k, x))` and `simple_run`; its runner is not modelled",
                "pipeline-level: every call of a part is a call of the full run and the folder holds only elements of the full run "
-               "(C06_pieces_flow, _seq, _parallel) under the decidable well-formedness flowWF, which is evaluated by the driver on every "
-               "generated request (never false for an accepted request) but not derived from _validate_fixed_indices + map_shapes + "
-               "validate_consistent_axes (the latter is not modelled)",
+               "(C06_pieces_flow, _seq, _parallel) under the decidable well-formedness flowWF; round 3: flowWF is DERIVED "
+               "(C06_flowWF_of_conforms, C06_pieces_flow_valid, _seq_valid) for every request _validate_fixed_indices accepts on a pipeline "
+               "satisfying C01's Conforms (acyclic, distinct output names, validate_consistent_axes as C01's consistentAxes, map_shapes "
+               "succeeds, functions typed against the declared shape table); the driver still evaluates flowWF and Conforms on every "
+               "generated request and the harness counts derived vs merely evaluated cases (all derived so far)",
                "the inputs of a sub-map run (output_names=) are chosen with a Python reference of the needed functions; autogenerated "
                "MapSpecs are regenerated for the narrowed pipeline on the Python side (regenerate_autogen)"]
 
@@ -401,12 +406,31 @@ def judge_sequence(ctx, case, impl_obs, loaded, model_obs_, full, nparts):
     # the model's verdict on the sequence
     merr = next((k for k, o in enumerate(model_obs_) if "err" in o), None)
     ierr = next((k for k, o in enumerate(impl_obs) if "err" in o), None)
+    if case.get("kind") == "internal-axis":
+        # the operator's own premise, decided by the model: a request naming an axis no MapSpec maps over is refused by the validation
+        # (ValueError, first part); and the refusal happens before any function runs
+        k, fx = case["axis"], case["parts"][0]
+        ent = next(s for a, s in fx if a == k)
+        n = case["desc"]["sizes"][k]
+        ctx.count("internal-axis:" + ("slice" if not isinstance(ent, int) else "in-range integer" if -n <= ent < n else "out-of-range integer")
+                  + (" + an entry for a mapped axis" if len(fx) > 1 else ""))
+        if merr != 0 or model_obs_[0]["err"] not in ("ValueError", "IndexError"):
+            V(case, f"the model does not refuse an index on the internal-only axis `{k}` (harness and model disagree on which axes are "
+                    f"mapped over)", found_input=False, item="correspondence:internal-axis-model", impl=impl_obs[0], model=model_obs_[0])
+            return False
+        if ierr == 0 and impl_obs[0].get("ran", 0) > 0:
+            V(case, f"an index on the internal-only axis `{k}` was refused only after {impl_obs[0]['ran']} call(s) had run",
+              found_input=False, item="correspondence:refusal-time", impl=impl_obs[0], model=model_obs_[0])
+            return False
     if merr is not None:
         late = ierr is not None and impl_obs[ierr].get("ran", 0) > 0
         ctx.count(f"reject:{model_obs_[merr]['err']}{':late (after earlier generations ran)' if late else ''}")
         if ierr is None:
             V(case, f"request that must be rejected ({model_obs_[merr]['err']}) was accepted",
                           impl=impl_obs[merr] if merr < len(impl_obs) else None, model=model_obs_[merr])
+        elif ierr > merr:       # the implementation went on past the request the model refuses (and stumbled later)
+            V(case, f"request that must be rejected ({model_obs_[merr]['err']}) was accepted (part #{merr}; a later part was refused)",
+                          impl=impl_obs[merr], model=model_obs_[merr])
         elif ierr != merr:
             V(case, f"part #{ierr} refused with {impl_obs[ierr]['err']} although valid: {impl_obs[ierr]['msg'][:100]}",
                           impl=impl_obs[ierr], model=model_obs_[ierr])
@@ -481,11 +505,69 @@ def malformed_requests(rng, desc, axes):
     return out
 
 
+def mapped_axes(desc):
+    """the axes some function maps over (the input indices of all MapSpecs)"""
+    return {x for f in desc["funcs"] if f["mapspec"] for a in f["mapspec"]["inputs"] for x in a[1] if x is not None}
+
+
+def internal_only_axes(desc):
+    """axes that no MapSpec has among its input indices: they exist only as internal axes of outputs (generated inside a function,
+    `internal_shape`); `fixed_indices` on them must be refused (DF-C06-internal-axis: they were silently ignored)"""
+    mapped = mapped_axes(desc)
+    return [a for a in axes_of(desc) if a not in mapped]
+
+
+def internal_somewhere_axes(desc):
+    """axes that are internal in the output of one function and mapped over by another one: requests on them stay valid (the producer
+    ignores the entry and computes everything, the consumer selects)"""
+    mapped = mapped_axes(desc)
+    out = []
+    for f in desc["funcs"]:
+        ms = f["mapspec"]
+        if ms:
+            carried = {x for a in ms["inputs"] for x in a[1] if x is not None}
+            for a in ms["outputs"][:1]:
+                out += [x for x in a[1] if x not in carried and x in mapped and x not in out]
+    return out
+
+
+def internal_axis_requests(rng, desc):
+    """the operator 'a fixed index on an internal-only axis': for every such axis an in-range integer, an out-of-range integer and an
+    in-range slice, alone and together with a valid entry for an axis that is mapped over; every one must be refused (ValueError)
+    before anything runs.  [(axis, fixed)]"""
+    out = []
+    others = [a for a in axes_of(desc) if a in mapped_axes(desc)]
+    for k in internal_only_axes(desc):
+        n = desc["sizes"][k]
+        valid_int = rng.choice([rng.randrange(n), -rng.randint(1, n)])
+        oor = rng.choice([n, n + rng.randint(1, 97), -n - 1])
+        valid_slice = rng.choice([x for b in sel_table(n).items() if b[0] for x in b[1] if not isinstance(x, int)])
+        reqs = [[[k, valid_int]], [[k, oor]], [[k, valid_slice]]]
+        if others:
+            a = rng.choice(others)
+            m = desc["sizes"][a]
+            entry = [a, pick_rep(rng, m, [rng.randrange(m)])]
+            pair = [entry, [k, rng.choice([valid_int, oor])]]
+            rng.shuffle(pair)
+            reqs.append(pair)
+        out += [(k, fx) for fx in reqs]
+    return out
+
+
 def plan_case(ctx, rng, desc, storage):
     """The request sequences for one pipeline: [(kind, axis, parts-with-final-None)]"""
     plans = []
     axes = axes_of(desc)
+    internal_only = internal_only_axes(desc)
+    for k, fx in internal_axis_requests(rng, desc):
+        plans.append(("internal-axis", k, [fx, None]))
+    for a in internal_somewhere_axes(desc):
+        ctx.count("axis:internal in one output, mapped over by another function (requests stay valid)")
     for a in axes:
+        if a in internal_only:
+            ctx.count("axis:internal only (every request refused)")
+            if rng.random() < 0.7:
+                continue          # one in three still gets the partitions: every part must be refused
         n = desc["sizes"][a]
         for sels in partitions_for(rng, n, ctx.tier):
             for order in orders_for(rng, len(sels), ctx.tier):
@@ -599,7 +681,7 @@ def sub_jobs(ctx, rng, impl, desc, storage, jobs, fixed_plans=None):
                                   {"m": "pieces.run", "a": {**req, "parts": parts[:1]}}]})
 
 
-def check_pipeline(ctx, rng, desc, storage, base, jobs):
+def check_pipeline(ctx, rng, desc, storage, base, jobs, extra_plans=()):
     """Run the implementation on every planned sequence; queue the model requests."""
     try:
         impl = Impl(desc, storage, base)
@@ -616,7 +698,7 @@ def check_pipeline(ctx, rng, desc, storage, base, jobs):
     if "err" in full_obs[0]:
         return
     planned = []
-    for kind, axis, parts in plan_case(ctx, rng, desc, storage):
+    for kind, axis, parts in list(extra_plans) + plan_case(ctx, rng, desc, storage):
         obs, loaded = impl.sequence(parts)
         planned.append(len(jobs))
         jobs.append({"kind": kind, "desc": desc, "storage": storage, "axis": axis, "parts": parts, "impl": obs, "loaded": loaded,
@@ -1092,6 +1174,19 @@ CORPUS = [
     (d([_f("f0", ["x0", "x1"], ["y0"], {"inputs": [["x0", ["i"]], ["x1", ["j"]]], "outputs": [["y0", ["j", "i"]]]}),
         _f("f1", ["y0", "x0"], ["y1"], {"inputs": [["y0", ["j", None]], ["x0", ["i"]]], "outputs": [["y1", ["i", "j"]]]})],
        [_arr("x0", 2), _arr("x1", 2)], {"i": 2, "j": 2, "k": 1}), "dict"),
+    # DF-C06-internal-axis: `x0[i] -> y0[i, k]`, internal_shape=(2,), nothing downstream: an index on `k` (in range or not) was accepted
+    # and ignored; it must be refused.  (CORPUS_PLANS adds the exact requests of the report.)
+    (d([_f("f0", ["x0"], ["y0"], {"inputs": [["x0", ["i"]]], "outputs": [["y0", ["i", "k"]]]}, ret=[2], internal=[2])], [_arr("x0", 3)],
+       {"i": 3, "j": 1, "k": 2}), "dict"),
+    # ... and the request that stays valid: `k` is internal in y0 and mapped over by f1 (`y0[i, k] -> y1[i, k]`): the parts on `k`
+    # compute all of y0 first and then y1[:, part]; `{"k": 99}` is refused late (IndexError of NumPy in f1's mask)
+    (d([_f("f0", ["x0"], ["y0"], {"inputs": [["x0", ["i"]]], "outputs": [["y0", ["i", "k"]]]}, ret=[2], internal=[2]),
+        _f("f1", ["y0"], ["y1"], {"inputs": [["y0", ["i", "k"]]], "outputs": [["y1", ["i", "k"]]]})],
+       [_arr("x0", 3)], {"i": 3, "j": 1, "k": 2}), "file_array"),
+    # an internal-only axis from a generator (`... -> y0[j]`, taken element-wise by nobody) next to a mapped function
+    (d([_f("f0", ["c0"], ["y0"], {"inputs": [], "outputs": [["y0", ["j"]]]}, ret=[2], internal=[2]),
+        _f("f1", ["x1"], ["y1"], {"inputs": [["x1", ["i"]]], "outputs": [["y1", ["i"]]]})],
+       [["c0", {"s": "in:c0"}], _arr("x1", 2)], {"i": 2, "j": 2, "k": 1}), "file_array"),
     # --- split_independent_axes edge cases (every corpus pipeline gets learners with and without the split) ---
     # all axes independent: the outer product of two inputs, the leaf carries both (one key per (i, j))
     (d([_f("f0", ["x0", "x1"], ["y0"], {"inputs": [["x0", ["i"]], ["x1", ["j"]]], "outputs": [["y0", ["i", "j"]]]}),
@@ -1110,6 +1205,16 @@ CORPUS = [
     # the only function has no MapSpec
     (d([_f("f0", ["c0"], ["y0a", "y0b"])], [["c0", {"s": "in:c0"}]], {"i": 1, "j": 1, "k": 1}), "file_array"),
 ]
+
+
+# requests added to the generated plans of a corpus pipeline (the inputs of the defect reports, verbatim)
+_K = next(q for q, (dd, _) in enumerate(CORPUS) if dd["funcs"][0]["mapspec"] and dd["funcs"][0]["mapspec"]["outputs"][0][1] == ["i", "k"]
+          and len(dd["funcs"]) == 1)
+CORPUS_PLANS = {
+    _K: [("internal-axis", "k", [[["k", 99]], None]), ("internal-axis", "k", [[["k", 0]], None]),
+         ("internal-axis", "k", [[["i", 0], ["k", 99]], None]), ("internal-axis", "k", [[["k", {"sl": [None, None, None]}]], None])],
+    _K + 1: [("pieces", "k", [[["k", 0]], [["k", 1]], None]), ("malformed", None, [[["k", 99]], None])],
+}
 
 
 # `fixed_indices` with `output_names`: the request is validated against the narrowed pipeline (seeded change C06-s2-B validated it
@@ -1140,16 +1245,19 @@ def run(ctx):
     try:
         selector_oracle(ctx)
         cases = [(copy.deepcopy(dd), s) for dd, s in CORPUS]
-        for k in range(ctx.n(14, 450)):
-            desc = mapgen.gen_case(rng, max_size=4 if k % 5 == 4 else 3, max_funcs=rng.choice([1, 2, 3, 3, 4]))
+        for k in range(ctx.n(11, 450)):
+            # every fourth pipeline is drawn with more internal axes and generators (round 3: axes nobody maps over, and axes that are
+            # internal in one output and mapped over downstream)
+            kinds = ["internal", "internal", "gen", "elem", "outer", "partial"] if k % 4 == 3 else None
+            desc = mapgen.gen_case(rng, max_size=4 if k % 5 == 4 else 3, max_funcs=rng.choice([1, 2, 3, 3, 4]), kinds=kinds)
             cases.append((desc, STORAGES[k % len(STORAGES)]))
         jobs: list = []
         for dd, storage, fixed_plans in SUB_CORPUS:
             desc = copy.deepcopy(dd)
             sub_jobs(ctx, rng, Impl(desc, storage, base), desc, storage, jobs, fixed_plans=fixed_plans)
         ctx.notes.append(f"t(selector oracle + sub corpus)={ctx.elapsed():.1f}s")
-        for desc, storage in cases:
-            check_pipeline(ctx, rng, desc, storage, base, jobs)
+        for q, (desc, storage) in enumerate(cases):
+            check_pipeline(ctx, rng, desc, storage, base, jobs, extra_plans=CORPUS_PLANS.get(q, ()))
         ctx.notes.append(f"t(+real runs of {len(cases)} pipelines, {len(jobs)} jobs)={ctx.elapsed():.1f}s")
         by_driver = {"C06": [], "C01": []}
         c06_flow.add_reqs(jobs)
